@@ -349,6 +349,10 @@ def parse_runner(prop, cfg, tier, seed, wdir, mpv, cov, violations, broken, note
     return eval_runner(prop, cfg, tier, seed, wdir, mpv, cov, violations, broken, notes, cmd='parse', mode='parse')
 
 
+def ana_runner(prop, cfg, tier, seed, wdir, mpv, cov, violations, broken, notes):
+    return eval_runner(prop, cfg, tier, seed, wdir, mpv, cov, violations, broken, notes, cmd='ana', mode='ana')
+
+
 def eval_runner(prop, cfg, tier, seed, wdir, mpv, cov, violations, broken, notes, cmd='eval', mode='eval'):
     """generic runner: Go generator + implementation, Lean model on the same lines."""
     d = os.path.join(wdir, 'run')
